@@ -43,8 +43,9 @@ Deserved == dz.here
 
 TypeOK == /\ s.cons <= s.sent /\ s.sent <= upto /\ upto <= Len(W.a) /\ s.sec \in 0..2
           /\ s.ans => s.resp.st \in Statuses
-(* C16: without the exact key nothing is accepted and nothing revealed *)
-KeyEnforced == (s.ans /\ key # "" /\ ~shape.presents) => (s.resp.dl = <<>> /\ ~s.resp.rv /\ s.resp.gets = <<>>)
+(* C16: without the exact key nothing is accepted and nothing revealed: under every framing, if the bytes of the *)
+(* key were not sent as (the beginning of) an x-api-key value; for plain framings FramingIndependent says more   *)
+KeyEnforced == (s.ans /\ key # "" /\ ~shape.keysent) => (s.resp.dl = <<>> /\ ~s.resp.rv /\ s.resp.gets = <<>>)
 (* C16: GET never changes state; only GET reveals state; a request that is neither is refused *)
 GetIsReadOnly == (s.ans /\ shape.tags.m # "POST") => s.resp.dl = <<>>
 OnlyGetReveals == (s.ans /\ shape.tags.m # "GET") => (~s.resp.rv /\ s.resp.gets = <<>>)
@@ -58,7 +59,7 @@ FramingIndependent == (s.ans /\ plain) => s.resp = Deserved
 (* a cut elsewhere or an early close can only turn the answer into a refusal *)
 CutsOnlyRefuse == s.ans => \/ s.resp = Deserved
                            \/ (s.resp.st \in {400, 401} /\ s.resp.dl = <<>> /\ ~s.resp.rv)
-                           \/ (shape.tags.m = "GET" /\ s.resp.dl = <<>> /\ (s.resp.rv => (key = "" \/ shape.presents)))
+                           \/ (shape.tags.m = "GET" /\ s.resp.dl = <<>> /\ (s.resp.rv => (key = "" \/ shape.keysent)))
 (* every answer is a well-formed response: known status; a bare acknowledgement only for POST *)
 WellFormedAnswer == s.ans => (s.resp.st \in Statuses /\ (s.resp.bare => (s.resp.st \in {200, 503} /\ shape.tags.m = "POST"))
                               /\ (s.resp.st = 401 => key # "") /\ (s.resp.dl # <<>> => s.resp.st = 200))
